@@ -1056,7 +1056,8 @@ static int rtr_sync_receive_and_store_pdus(struct rtr_socket *rtr_socket)
 		pthread_setcancelstate(PTHREAD_CANCEL_DISABLE, &oldcancelstate);
 		pthread_cleanup_pop(0);
 
-		if (retval == TR_WOULDBLOCK || retval == TR_CLOSED) {
+		if (retval == TR_WOULDBLOCK || retval == TR_CLOSED || retval == TR_INTR) {
+			// (after an interrupted read the position in the stream is unknown)
 			rtr_change_socket_state(rtr_socket, RTR_ERROR_TRANSPORT);
 			retval = RTR_ERROR;
 			goto cleanup;
@@ -1356,7 +1357,8 @@ int rtr_sync(struct rtr_socket *rtr_socket)
 			}
 		}
 
-		if (rtval == TR_WOULDBLOCK || rtval == TR_CLOSED) {
+		if (rtval == TR_WOULDBLOCK || rtval == TR_CLOSED || rtval == TR_INTR) {
+			// (after an interrupted read the position in the stream is unknown)
 			rtr_change_socket_state(rtr_socket, RTR_ERROR_TRANSPORT);
 			return RTR_ERROR;
 		} else if (rtval < 0) {
